@@ -778,7 +778,7 @@ def _run(case, drv):
             if not f["bpm_3dec"]:
                 kf_pred.append("D06")
             if f["tempo_tie_unequal"]:
-                kf_pred.append("N09c")
+                kf_pred.append("D45")
     res = "ms" if tgt in ("osu", "qua") else ([[1, 96], [1, 192]] if tgt == "sm" else [[1, 192], [1, 192]])
     for a in srcs:
         cr = drv.call("c09.crowded", res=res, a=dict(hits=a["hits"], holds=a["holds"], bpms=a["bpms"]))["ok"]
